@@ -31,6 +31,11 @@ def carrier_yaml(address_size=16, endian='little', origin=None, zones=None, data
             'imm16': {'operand_values': {'i16': {'type': 'numeric', 'argument': {'size': 16, 'byte_align': True}}}},
             'imm4': {'operand_values': {'i4': {'type': 'numeric', 'argument': {'size': 4, 'byte_align': False}}}},
             'imm12': {'operand_values': {'i12': {'type': 'numeric', 'argument': {'size': 12, 'byte_align': False}}}},
+            # [a], [a + offset], [a - offset]: an indirect register with an 8-bit offset expression
+            'inda': {'operand_values': {'ia': {'type': 'indirect_register', 'register': 'a', 'bytecode': {'value': 1, 'size': 8},
+                                               'offset': {'size': 8, 'byte_align': True}}}},
+            # a branch whose operand is an address written as an expression; the field carries target - own address
+            'rel8': {'operand_values': {'rl': {'type': 'relative_address', 'argument': {'size': 8, 'byte_align': True}}}},
             'reg': {'operand_values': {
                 'ra': {'type': 'register', 'register': 'a', 'bytecode': {'value': 1, 'size': 8}},
                 'rb': {'type': 'register', 'register': 'b', 'bytecode': {'value': 2, 'size': 8}},
@@ -49,6 +54,8 @@ def carrier_yaml(address_size=16, endian='little', origin=None, zones=None, data
                      'operands': {'count': 1, 'operand_sets': {'list': ['imm12']}}},
             'n1': {'bytecode': {'value': 1, 'size': 4}},
             'n2': {'bytecode': {'value': 2, 'size': 4}},
+            'ldo': {'bytecode': {'value': 0xD0, 'size': 8}, 'operands': {'count': 1, 'operand_sets': {'list': ['inda']}}},
+            'bra': {'bytecode': {'value': 0xD8, 'size': 8}, 'operands': {'count': 1, 'operand_sets': {'list': ['rel8']}}},
             'mov': {'bytecode': {'value': 0xC0, 'size': 8},
                     'operands': {'count': 1, 'operand_sets': {'list': ['reg']}}},
             # one operand, of which one alternative is excluded (a one-element disallowed combination)
